@@ -196,7 +196,7 @@ impl Monitor for C03 {
     }
 
     fn run_case(&mut self, k: u64, ctx: &mut Ctx) {
-        let max_plain = self.tier.pick(60_000, 400_000);
+        let max_plain = self.tier.pick(200_000, 500_000);
         let mut k = k;
         if k < self.n_sweep {
             let mut r = Rng::derive(self.seed, 0x0300, k, 0);
